@@ -35,6 +35,7 @@ func (g *Graph) StronglyConnected() [][]Vertex {
 }
 
 func stronglyConnected(acct *sccAcct, g *Graph, v Vertex) int {
+	verifStep()
 	// Initial vertex visit
 	index := acct.visit(v)
 	minIdx := index
